@@ -96,7 +96,7 @@ def run(chk, replay=None):
     cases = cc.spec_cases(chk, "c02mc")
     cc.replay(chk, cases, want)
     chk.ev.sample({"spec_case": {k: cases[len(cases) // 2][k] for k in ("cls", "dict", "cdb")}})
-    events = record(chk, cases, 24 if chk.quick else 2000)
+    events = record(chk, cases, 24 if chk.quick else 5000)
     cc.judge(chk, events, want, "c02tr")
     chk.ev.sample({"event": events[1]})
     chk.ev.cov["rule"] = ("every MC_T10Cdb case at dictionary level (marshall_cdb(dict) == predicted bytes, "
